@@ -40,7 +40,7 @@ CHECKS["C03"] = dict(
          "length and every value of the full-width argument type.",
     note="Configurations: a boundary-biased seeded sample (quick) / a third of the full space per run, rotated by the seed (thorough). "
          "Bcd writes only up to 16 (quick) / 32 (thorough) bits wide (division chains beyond do not bit-blast in time); "
-         "same trusted base as C02.  Structure level: writes through physical, alias and invertible virtual fields of the corpus.",
+         "same trusted base as C02.  Structure level: writes through physical, alias and invertible virtual fields of the corpus (read-back, untouched bytes, failed-write atomicity, and a write succeeds only through a field that is present).",
     design="DESIGN.md section 3 C03",
 )
 
